@@ -265,7 +265,8 @@ pub fn check_record(rec: &Value) -> Verdict {
                 return Verdict::Skip("corpus suite not found".into());
             };
             let g1 = match compile_corpus(&c.files, entry) {
-                Err(p) => return Verdict::fail(format!("panic:{}", p), format!("corpus entry {}", entry)),
+                // a source the front end does not get through is outside of this property (totality is C08's)
+                Err(p) => return Verdict::Skip(format!("corpus entry not compiled: panic {}", normalise_panic(&p))),
                 Ok(Err(e)) => return Verdict::Skip(format!("corpus entry rejected: {}", normalise_panic(e.lines().next().unwrap_or("")))),
                 Ok(Ok(p)) => p,
             };
@@ -274,7 +275,10 @@ pub fn check_record(rec: &Value) -> Verdict {
         _ => {
             let src = rec["source"].as_str().unwrap_or("");
             let g1 = match compile_text(src, Tgt::Dx) {
-                Err(p) => return Verdict::fail(format!("panic:{}", p), src.to_string()),
+                // the property speaks about accepted programs: a source the front end does not get through (a panic on a
+                // text mutated by the fuzzing stage, e.g. the todo!() behind KF-C08-5) is C08's business, not a
+                // violation of the fixpoint property; a panic while reading the EMITTED text stays a violation
+                Err(p) => return Verdict::Skip(format!("source not compiled: panic {}", normalise_panic(&p))),
                 Ok(Err(e)) => return Verdict::Skip(format!("rejected: {}", normalise_panic(e.lines().next().unwrap_or("")))),
                 Ok(Ok(mut p)) => p.remove(0),
             };
@@ -325,6 +329,55 @@ pub fn run(ctx: &mut Ctx) {
         },
         check_record,
     );
+    // ---- every kind of entity declared inside a namespace (one or two levels) x every place it is named from
+    {
+        // (declaration inside the namespace, use as an expression of type int or float)
+        const ENTITIES: &[(&str, &str)] = &[
+            ("cbuffer ZCB { float4 zx; int zy; }\n", "(int)@zx.y + @zy"),
+            ("static const int zk = 3;\n", "@zk"),
+            ("static int zv = 4;\n", "@zv"),
+            ("struct ZS { int m; };\nZS zmake(int k) { ZS s; s.m = k; return s; }\n", "@zmake(2).m"),
+            ("enum ZE { ZA = 5, ZB };\n", "(int)@ZB + (int)@ZE::ZA"),
+            ("int zf(int k) { return k + 1; }\nint zf(float k) { return 2; }\n", "@zf(1) + @zf(1.0)"),
+            ("template<typename T> T zt(T k) { return k; }\n", "@zt<int>(3) + (int)@zt(2.0)"),
+            ("Texture2D<float4> ztex;\n", "(int)@ztex.Load(int3(0, 0, 0)).x"),
+            ("ConstantBuffer<float4> zcb2;\n", "(int)@zcb2.x"),
+            ("typedef int ZT;\nstatic const ZT zq = 7;\n", "(int)(@ZT)@zq"),
+        ];
+        const SITES: usize = 5;
+        let n = ENTITIES.len() as u64;
+        let make = |i: u64| {
+            let (decl, usage) = ENTITIES[(i % n) as usize];
+            let deep = (i / n) % 2 == 1;
+            let site = ((i / (2 * n)) as usize) % SITES;
+            let path = if deep { "ZN::ZM::" } else { "ZN::" };
+            let open = if deep { "namespace ZN {\nnamespace ZM {\n" } else { "namespace ZN {\n" };
+            let close = if deep { "}\n}\n" } else { "}\n" };
+            let full = usage.replace('@', path);
+            let bare = usage.replace('@', "");
+            let text = match site {
+                // from the root scope
+                0 => format!("{}{}{}int zuse() {{ return {}; }}\n", open, decl, close, full),
+                // from the namespace itself: unqualified and qualified
+                1 => format!("{}{}int zin() {{ return {} + {}; }}\n{}int zuse() {{ return {}zin(); }}\n", open, decl, bare, full, close, path),
+                // from another namespace
+                2 => format!("{}{}{}namespace ZP {{\nint zin() {{ return {}; }}\n}}\nint zuse() {{ return ZP::zin(); }}\n", open, decl, close, full),
+                // from a nested namespace of it
+                3 => format!("{}{}namespace ZI {{\nint zin() {{ return {} + {}; }}\n}}\n{}int zuse() {{ return {}ZI::zin(); }}\n", open, decl, bare, full, close, path),
+                // from a method of a struct of the root scope
+                _ => format!("{}{}{}struct ZW {{ int a; int zin() {{ return a + {}; }} }};\nint zuse() {{ ZW w; w.a = 1; return w.zin(); }}\n", open, decl, close, full),
+            };
+            json!({"kind": "text", "source": text})
+        };
+        ctx.run_enum("namespaced_entities", n * 2 * SITES as u64, true, make, |i| match check_record(&make(i)) {
+            Verdict::Pass { nontrivial, mut labels } => {
+                labels.push("namespaced_entity".into());
+                Verdict::Pass { nontrivial, labels }
+            }
+            other => other,
+        });
+        ctx.require_label("namespaced_entity", 60);
+    }
     ctx.require_label("corpus", 20);
     ctx.require_label("generated", 100);
     if ctx.tier == Tier::Thorough && ctx.failures.is_empty() {
